@@ -4,8 +4,8 @@ package clone
 
 // C09: GoldenGate returns exactly the plasmids the overhangs allow.
 //
-// verif:bound C09 designed assemblies with 1..2 (quick) / 1..3 (thorough) junctions, 1..2 alternative fragments per slot (at most 4 fragments in quick), every fragment supplied in either orientation, two input orders, an optional dead-end decoy; fragment interiors one symbolic base (ACGT) plus a fixed tag base each; junction labels distinct, non-palindromic and free of reverse-complement pairs
-// verif:bound C09 schedules at synchronisation-point granularity: designed-ring harness default run-to-block schedule (quick) plus LIFO mirror and 1 deviation (thorough); scheduling-independence harness on concrete pools of 1..3 fragments: default, LIFO mirror and all schedules deviating at <= 2 (quick) / 3 (thorough) of the first 24 choice points
+// verif:bound C09 designed assemblies with 1..2 (quick) / 1..3 (thorough) junctions, 1..2 alternative fragments per slot (at most 4 fragments), every fragment supplied in either orientation, two input orders, an optional dead-end decoy; fragment interiors one symbolic base (ACGT) plus a fixed tag base each; junction labels distinct, non-palindromic and free of reverse-complement pairs
+// verif:bound C09 schedules at synchronisation-point granularity: designed-ring harness default run-to-block schedule (quick) plus LIFO mirror and 1 deviation for pools of at most 2 fragments (thorough); scheduling-independence harness on concrete pools of 1..3 fragments: default, LIFO mirror and all schedules deviating at <= 2 (quick) / 3 (thorough) of the first 24 choice points
 // verif:bound C09 termination: pools of 3 fragments whose overhangs close a cycle that excludes the seed; call depth / goroutine count as the termination obligation
 // verif:bound C09 library clause: a concrete pool of 5 (quick) / 6 (thorough) junctions with 3 alternatives per slot (243 / 729 rings, 1215 / 4374 construct deliveries), mixed orientations; a closed computation executed by the engine (termination, count and distinctness of the rings; no symbolic input)
 // verif:assume C09 seqhash.Hash is executed from SSA with BLAKE3 as an assumed collision-free uninterpreted function (see C04/C05)
@@ -19,7 +19,7 @@ func c09Design() (frags []Fragment, rings []string) {
 	total := 0
 	for i := 0; i < k; i++ {
 		na := 1 + vChoice(2)
-		if vTier(0, 1) == 0 && total+na+(k-1-i) > 4 {
+		if total+na+(k-1-i) > 4 {
 			na = 1
 		}
 		total += na
@@ -59,8 +59,10 @@ func c09Design() (frags []Fragment, rings []string) {
 }
 
 func Harness_C09_Rings() {
-	vSchedules(vTier(0, 1))
 	frags, rings := c09Design()
+	if len(frags) <= 2 {
+		vSchedules(vTier(0, 1)) // thorough: LIFO mirror and one deviation for pools of up to 2 fragments
+	}
 	vTerminates(3000000)
 	var got []Part
 	panicked := vPanics(func() { got = CircularLigate(frags) })
